@@ -576,7 +576,11 @@ def explore(cx, atom_eval, start=None, stop=()):
         if isinstance(e, ast.Constant) and isinstance(e.value, (bool, type(None))):
             return bool(e.value)
         if isinstance(e, ast.Name) and e.id in env:
-            return env[e.id]
+            return False if env[e.id] == 'NONE' else env[e.id]
+        if isinstance(e, ast.Compare) and len(e.ops) == 1 and isinstance(e.left, ast.Name) and e.left.id in env \
+                and isinstance(e.comparators[0], ast.Constant) and e.comparators[0].value is None and isinstance(e.ops[0], (ast.Is, ast.IsNot, ast.Eq, ast.NotEq)):
+            isnone = env[e.left.id] == 'NONE'
+            return isnone if isinstance(e.ops[0], (ast.Is, ast.Eq)) else not isnone
         if isinstance(e, ast.UnaryOp) and isinstance(e.op, ast.Not):
             v = ev(e.operand, env)
             return None if v is None else (not v)
@@ -616,9 +620,12 @@ def explore(cx, atom_eval, start=None, stop=()):
                     if isinstance(x, ast.Name):
                         env.pop(x.id, None)
             if isinstance(n.ast, ast.Assign) and len(tg) == 1 and isinstance(tg[0], ast.Name):
-                v = ev(n.ast.value, dict(envt))
-                if v is not None:
-                    env[tg[0].id] = v
+                if isinstance(n.ast.value, ast.Constant) and n.ast.value.value is None:
+                    env[tg[0].id] = 'NONE'
+                else:
+                    v = ev(n.ast.value, dict(envt))
+                    if v is not None:
+                        env[tg[0].id] = v
         elif n.kind in ('for', 'with', 'handler'):
             for (nm, _) in cfg.defs_of(n):
                 env.pop(nm, None)
